@@ -62,7 +62,7 @@ func VerifC10Squash() {
 	if vThorough() {
 		maxN = 3
 	}
-	N := vChoose("retainN", maxN) + 1
+	N := vInt("retainN", 1, maxN) // symbolic: squash and the reference both branch on it
 	mode := vChoose("retainTags", 4) // 0 none, 1 all labels, 2 semver labels, 3 both options together (= all labels)
 	opts := []Option{WithRetainNLatest(N)}
 	if mode == 1 {
